@@ -810,7 +810,7 @@ func runC15(c *lib.Ctx) error {
 
 	// Part S: structured layouts one by one, then random ones, then groups (several assets in one tree)
 	structured := structuredLayouts()
-	nDamage, nRandom, nGroups := 4, 60, 6
+	nDamage, nRandom, nGroups := 4, 40, 4
 	if c.Thorough() {
 		nDamage, nRandom, nGroups = 9, 2000, 150
 	}
